@@ -689,23 +689,24 @@ def step (D : Decisions) (s : St) : Ev → Option St
       if a = b ∧ h = nx then some { s with waiters := updI s.waiters fd ((s.waiters fd).drop 1), sec := updI s.sec fd (.l4 a res g) } else none
     | _ => none
   | .rScr a g v =>
-    match s.pc a with
-    | .inWait c =>
-      -- the woken fiber reads the result the waker left in its scratch field
-      if g = a ∧ s.wres a = some v ∧ s.cur a = none then
-        some { s with wres := upd s.wres a none, pc := upd s.pc a (afterWait c (v == 0)) }
-      else none
-    | _ =>
-      -- the waker reads the next pointer of the head waiter = the second element of the list
-      match s.cur a with
-      | some fd =>
-        match s.sec fd with
-        | .l2 b res g' =>
-          if a = b ∧ g = g' ∧ v = (headOf ((s.waiters fd).drop 1) : Int) then
-            some { s with sec := updI s.sec fd (.l3 a res g (headOf ((s.waiters fd).drop 1))) }
-          else none
-        | _ => none
-      | none => none
+    match s.cur a with
+    | some fd =>
+      -- the waker (it holds the lock of `fd`) reads the next pointer of the head waiter = the
+      -- second element of the list
+      match s.sec fd with
+      | .l2 b res g' =>
+        if a = b ∧ g = g' ∧ v = (headOf ((s.waiters fd).drop 1) : Int) then
+          some { s with sec := updI s.sec fd (.l3 a res g (headOf ((s.waiters fd).drop 1))) }
+        else none
+      | _ => none
+    | none =>
+      match s.pc a with
+      | .inWait c =>
+        -- the woken fiber reads the result the waker left in its scratch field
+        if g = a ∧ s.wres a = some v then
+          some { s with wres := upd s.wres a none, pc := upd s.pc a (afterWait c (v == 0)) }
+        else none
+      | _ => none
   | .wScr a g v =>
     match s.cur a with
     | some fd =>
